@@ -416,12 +416,12 @@ RULE_ADDENDA = {
            "be closed; Close itself need not beat such a Dialer). State next-write-fails (the next Write on the connection times out or resets: DISCONNECT itself, if no request comes first). Behind the recording Persistence double sits, per case, its own map (5 in 8), the library's in-memory map (2 in 8) or mqtt.FileSystem on a scratch directory (1 in 8). One case in five runs on a session made the way VolatileSession makes it (the library's map, no checksum layer).",
     'C13': "Also: after a violation and the redial a PUBLISH is sent on the fresh connection and must come out as sent (clean "
            "slate: no skip count, big-message marker or partial packet carried over). Setup may include 0-2 publishes per level refused by a failing Save; announced topic lengths up to 0xffff. TestC13AckBeforeWritten: 0-2 pending transfers, the next publish parks 0-12 bytes into its Write, the broker acknowledges everything including the packet in transit, the Write then ends by reset, timeout or completion: no panic, the call returns, the session goes on.",
-    'C14': "Simulated half, state online without fault: in 1 of 3 cases an earlier persisted publish of the level was refused (its Save failed); the publish which follows must be accepted, report no submission error on its exchange and be on the wire.",
+    'C14': "Simulated half, state online without fault: in 1 of 3 cases an earlier persisted publish of the level was refused (its Save failed); the publish which follows must be accepted, report no submission error on its exchange and be on the wire. In 1 of 4 online cases the connection's Close reports an error (as a TLS close_notify to a peer which is gone).",
     'C15': "Also (stored-values half): the Persistence double reads the buffers when a slow Save gets to them, not on entry; "
            "slowSave overlaps Saves of the read routine and of both publish levels. A single-byte alteration of an inbound marker must be reported by AdoptSession too; the parked publish of slowSave may be retained, and 0-2 QoS 0 publishes compose their packets meanwhile. In 1 of 4 adoptions of the damaged store Persistence.Delete fails once (no panic, still reported, never used). Behind the recording Persistence double sits, per case, its own map (5 in 8), the library's in-memory map (2 in 8) or mqtt.FileSystem on a scratch directory (1 in 8). After the adoption of the altered store the first ReadSlices must neither panic nor fail (client-identifier record excepted: F17).",
     'C16': "Also: AtLeastOnceMax/ExactlyOnceMax from {16,16,2,3,4}; 1 in 8 adoptions with Persistence.Delete failing once "
            "(only 'no panic' is judged then); 'second life' (the adopted client fills its queues, the process stops, the next "
-           "AdoptSession without new damage must work, connect and complete). Before the second stop 0-4 PUBRECs are released; every transfer the adopted client itself accepted and had pending at its stop must be on the first connection of the next process. Behind the recording Persistence double sits, per case, its own map (5 in 8), the library's in-memory map (2 in 8) or mqtt.FileSystem on a scratch directory (1 in 8).",
+           "AdoptSession without new damage must work, connect and complete). Before the second stop 0-4 PUBRECs are released; every transfer the adopted client itself accepted and had pending at its stop must be on the first connection of the next process. Behind the recording Persistence double sits, per case, its own map (5 in 8), the library's in-memory map (2 in 8) or mqtt.FileSystem on a scratch directory (1 in 8). In 1 of 4 adoptions the store is mqtt.FileSystem with 1-3 stray directory entries next to the records: an upper-case spelling of a record's name, a sub-directory named like a key, a spool leftover, foreign files, names of 4 and 6 hexadecimals.",
     'C17': "Also: resendFails (connection lost; the next one resets 0-80 bytes into the retransmission; the one after is healthy). ackDeleteFails (the Delete asked for by an acknowledgement fails; reconnect). TestC17Slots/TestC11CounterLap: in 1 of 3 cases an outage first, with 1032 requests refused while down. twoForTheLastSlot (one slot left, the reconnect parked inside its retransmission, two publishes arrive: exactly one ErrMax, no blocking). Behind the recording Persistence double sits, per case, its own map (5 in 8), the library's in-memory map (2 in 8) or mqtt.FileSystem on a scratch directory (1 in 8). Slots case: optionally a lone request abandoned after submission, then its successor (must not get the identifier whose answer is still owed).",
     'C18': "Also: in a held handshake a persisted publish whose Save is still running when the CONNACK arrives. Behind the recording Persistence double sits, per case, its own map (5 in 8), the library's in-memory map (2 in 8) or mqtt.FileSystem on a scratch directory (1 in 8). An attempt whose CONNECT gets through (also with one tolerated expiry after progress) and whose CONNACK accepts at once must establish the connection.",
 }
